@@ -76,11 +76,21 @@ pub fn with_big_stack<R: Send, F: FnOnce() -> R + Send>(f: F) -> R {
     })
 }
 
-thread_local! { pub static QUIET: std::cell::Cell<u32> = const { std::cell::Cell::new(0) }; }
+thread_local! {
+    pub static QUIET: std::cell::Cell<u32> = const { std::cell::Cell::new(0) };
+    pub static LAST_PANIC_SITE: std::cell::RefCell<String> = const { std::cell::RefCell::new(String::new()) };
+}
 
 pub fn install_panic_hook() {
     let default = std::panic::take_hook();
     std::panic::set_hook(Box::new(move |info| {
+        let site = info.location().map(|l| {
+            let f = l.file();
+            // keep the path relative to the repository so the site is stable
+            let f = f.strip_prefix("/repo/").unwrap_or(f);
+            format!("{}:{}", f, l.line())
+        });
+        LAST_PANIC_SITE.with(|s| *s.borrow_mut() = site.unwrap_or_else(|| "?".to_string()));
         if QUIET.with(|q| q.get()) == 0 {
             default(info);
         }
@@ -92,12 +102,155 @@ pub fn catch<R, F: FnOnce() -> R + std::panic::UnwindSafe>(f: F) -> Result<R, St
     let r = std::panic::catch_unwind(f);
     QUIET.with(|q| q.set(q.get() - 1));
     r.map_err(|e| {
-        if let Some(s) = e.downcast_ref::<&str>() {
+        let msg = if let Some(s) = e.downcast_ref::<&str>() {
             s.to_string()
         } else if let Some(s) = e.downcast_ref::<String>() {
             s.clone()
         } else {
             "panic".to_string()
-        }
+        };
+        let site = LAST_PANIC_SITE.with(|s| s.borrow().clone());
+        format!("{} @ {}", msg, site)
     })
+}
+
+// ---------------------------------------------------------------------------
+// Process-isolated sharding: aborts, stack overflows and hangs of the subject
+// kill a worker process, never the engine. A dead worker's range is bisected
+// down to the single responsible case.
+
+use std::sync::{Arc, Mutex};
+
+pub struct WorkerArgs {
+    pub sub: String,
+    pub lo: u64,
+    pub hi: u64,
+}
+
+pub fn worker_args() -> Option<WorkerArgs> {
+    let a: Vec<String> = std::env::args().collect();
+    let i = a.iter().position(|x| x == "--worker")?;
+    Some(WorkerArgs { sub: a[i + 1].clone(), lo: a[i + 2].parse().ok()?, hi: a[i + 3].parse().ok()? })
+}
+
+/// Child side: run cases lo..hi sequentially on a big-stack thread under a watchdog.
+/// Prints one JSON line {"stats":…, "hang": idx|null, "done_upto": idx} and exits.
+pub fn run_worker<F>(lo: u64, hi: u64, per_case_ms: u64, f: F) -> !
+where
+    F: Fn(&mut Stats, u64) + Send + Sync + 'static,
+{
+    let shared = Arc::new(Mutex::new(Stats::new()));
+    let cur = Arc::new(AtomicU64::new(lo));
+    let started = Arc::new(AtomicU64::new(now_ms()));
+    let done = Arc::new(AtomicBool::new(false));
+    {
+        let (shared, cur, started, done) = (shared.clone(), cur.clone(), started.clone(), done.clone());
+        std::thread::Builder::new()
+            .stack_size(BIG_STACK)
+            .spawn(move || {
+                for i in lo..hi {
+                    cur.store(i, Ordering::SeqCst);
+                    started.store(now_ms(), Ordering::SeqCst);
+                    let mut local = Stats::new();
+                    f(&mut local, i);
+                    shared.lock().unwrap().merge(local);
+                }
+                cur.store(hi, Ordering::SeqCst);
+                done.store(true, Ordering::SeqCst);
+            })
+            .expect("spawn worker thread");
+    }
+    loop {
+        std::thread::sleep(Duration::from_millis(20));
+        if done.load(Ordering::SeqCst) {
+            let st = shared.lock().unwrap().clone();
+            println!("{}", serde_json::json!({"stats": st.to_json(), "hang": serde_json::Value::Null, "done_upto": hi}));
+            std::process::exit(0);
+        }
+        if now_ms().saturating_sub(started.load(Ordering::SeqCst)) > per_case_ms {
+            let idx = cur.load(Ordering::SeqCst);
+            let st = shared.lock().unwrap().clone();
+            println!("{}", serde_json::json!({"stats": st.to_json(), "hang": idx, "done_upto": idx}));
+            std::process::exit(3);
+        }
+    }
+}
+
+fn now_ms() -> u64 {
+    std::time::SystemTime::now().duration_since(std::time::UNIX_EPOCH).map(|d| d.as_millis() as u64).unwrap_or(0)
+}
+
+pub enum Death {
+    Hang(u64),
+    Crash(u64, String),
+}
+
+fn spawn_worker(id: &str, tier: &str, sub: &str, lo: u64, hi: u64) -> (Option<serde_json::Value>, String) {
+    let exe = std::env::current_exe().expect("current exe");
+    let out = std::process::Command::new(exe)
+        .args([id, "--tier", tier, "--worker", sub, &lo.to_string(), &hi.to_string()])
+        .stdin(std::process::Stdio::null())
+        .stderr(std::process::Stdio::piped())
+        .output()
+        .expect("spawn worker process");
+    let stdout = String::from_utf8_lossy(&out.stdout);
+    let parsed = stdout.lines().rev().find_map(|l| serde_json::from_str::<serde_json::Value>(l).ok().filter(|v| v.get("stats").is_some()));
+    let status = format!("{:?} {}", out.status, String::from_utf8_lossy(&out.stderr).lines().rev().take(3).collect::<Vec<_>>().join(" | "));
+    (parsed, status)
+}
+
+/// Parent side. `on_death` is called with the single responsible case.
+pub fn par_range_proc(id: &str, tier: &str, sub: &str, n: u64, chunk: u64, cap: Option<Duration>, deaths: &mut Vec<Death>) -> (Stats, bool) {
+    let next = AtomicU64::new(0);
+    let capped = AtomicBool::new(false);
+    let start = Instant::now();
+    let nt = nthreads().max(1);
+    let all_deaths: Mutex<Vec<Death>> = Mutex::new(vec![]);
+    let total = Mutex::new(Stats::new());
+    std::thread::scope(|sc| {
+        for _ in 0..nt {
+            sc.spawn(|| loop {
+                if let Some(c) = cap {
+                    if start.elapsed() > c {
+                        capped.store(true, Ordering::SeqCst);
+                        break;
+                    }
+                }
+                let lo = next.fetch_add(chunk, Ordering::SeqCst);
+                if lo >= n {
+                    break;
+                }
+                let hi = (lo + chunk).min(n);
+                // work list of ranges still to do (bisecting on crashes)
+                let mut todo = vec![(lo, hi)];
+                while let Some((a, b)) = todo.pop() {
+                    if a >= b {
+                        continue;
+                    }
+                    let (res, status) = spawn_worker(id, tier, sub, a, b);
+                    match res {
+                        Some(v) => {
+                            total.lock().unwrap().merge(Stats::from_json(&v["stats"]));
+                            if let Some(h) = v["hang"].as_u64() {
+                                all_deaths.lock().unwrap().push(Death::Hang(h));
+                                todo.push((h + 1, b));
+                            }
+                        }
+                        None => {
+                            if b - a == 1 {
+                                all_deaths.lock().unwrap().push(Death::Crash(a, status));
+                            } else {
+                                let mid = a + (b - a) / 2;
+                                todo.push((mid, b));
+                                todo.push((a, mid));
+                            }
+                        }
+                    }
+                }
+            });
+        }
+    });
+    deaths.extend(all_deaths.into_inner().unwrap());
+    let was_capped = capped.load(Ordering::SeqCst) && next.load(Ordering::SeqCst) < n;
+    (total.into_inner().unwrap(), was_capped)
 }
